@@ -9,7 +9,10 @@
    yield points (they are atomic with the step they belong to).  The program counters name the operation a
    thread is *about to* perform.
 
-   cfg = [w        terminal width,
+   cfg = [mode     "ansi" (decorated output: the indicator redraws its line) | "plain" (not decorated: every frame is a
+                   line of its own, ' m', and advance() draws nothing) | "quiet" (nothing reaches the stream; the
+                   spinner thread runs all the same),
+          w        terminal width,
           interval the indicator's redraw interval (ms),
           start, end   the two messages of auto()                 (cells = 1-character strings, no blanks),
           body     the with-body: a sequence of [k |-> "set" | "work" | "raise" | "interrupt", m |-> cells]]
@@ -19,7 +22,7 @@
    P-layer (from the statement; over the terminal, the thread states and the outcome only):
        NoMix       every row of the terminal is blank or exactly one frame " v m" with v one of the indicator
                    values and m one of the messages of this run - never two frames run together
-       Joined      when M has left the with-block (either way) the spinner thread has ended
+       Joined      when M has left the with-block (either way) the spinner thread has ended - on every kind of output
        EndFrame    after a normal exit the last thing on the screen is a frame showing the end message and nothing
                    was drawn behind it (the cursor rests on a blank row below it)
        Terminates  M leaves the with-block (liveness, weak fairness of M, S and the clock)
@@ -45,20 +48,44 @@ VARIABLES cfg,
 vars == <<cfg, pcM, mph, bi, mframe, pcS, sframe, sdead, message, current, update, stop, lock, clock, term,
           outcome, last>>
 
-NoMix == NoMixT(term, MsgsOf(cfg))
+Quiet == cfg.mode = "quiet"
+Plain == cfg.mode = "plain"
+NoMix == NoMixT(term, MsgsOf(cfg), cfg.mode)
 Joined == pcM = "done" => pcS \in {"new", "done"}      \* "new": never started - cannot happen in auto()
-EndFrame == (pcM = "done" /\ outcome = "normal") => EndFrameT(term, cfg.end)
+EndFrame == (pcM = "done" /\ outcome = "normal" /\ ~Quiet) => EndFrameT(term, cfg.end, cfg.mode)
 Terminates == <>(pcM = "done")
 
 \* ------------------------------------------------------------------ A-layer
 \* at: the program counter the thread was at (names the model action; not compared with the code)
 Ev(th, op, ops) == [th |-> th, op |-> op, ops |-> ops, at |-> IF th = "M" THEN pcM ELSE IF th = "S" THEN pcS ELSE ""]
 
+\* the frame text of _display() for the mode of this run, and what writing it sends to the stream
+FrameOf(c, m) == IF Plain THEN <<" ">> \o m ELSE Frame(c, m)
+WriteFrame(f) == IF Plain THEN <<OpText(f), OpLF>> ELSE FrameOps(f)          \* plain: write_line(frame), one write
+\* where a thread stands when it enters _display() (not on a quiet output: there _display() returns at once)
+DisplayPc == IF Locked THEN "lock" ELSE IF Plain THEN "frame" ELSE "erase"
+
+\* M runs from the end of body item i-1 to its next yield point:  [pc, bi, msg, mph]
+\* (on a quiet output set_message() has no yield point at all: several items can pass in one step)
+RECURSIVE Cont(_, _)
+Cont(i, msg) ==
+  IF i > Len(cfg.body) THEN [pc |-> "f_set", bi |-> i, msg |-> msg, mph |-> mph]     \* finish(): _auto_running.set() first
+  ELSE LET it == cfg.body[i] IN
+    IF it.k = "set" THEN IF Quiet THEN Cont(i + 1, it.m)
+                         ELSE [pc |-> DisplayPc, bi |-> i, msg |-> it.m, mph |-> "b"]
+    ELSE IF it.k = "work" THEN [pc |-> "work", bi |-> i, msg |-> msg, mph |-> mph]
+    \* "raise" / "interrupt": except-branch of auto(); its write_line("") does not reach a quiet stream
+    ELSE [pc |-> IF Quiet THEN "x_set" ELSE "x_lf", bi |-> i, msg |-> msg, mph |-> mph]
+Enter(i) == LET c == Cont(i, message) IN
+            /\ pcM' = c.pc /\ bi' = c.bi /\ message' = c.msg /\ mph' = c.mph
+            /\ mframe' = IF c.pc \in {"erase", "frame"} THEN FrameOf(current, c.msg) ELSE mframe   \* unlocked code only
+
 InitWith(c) ==
   /\ cfg = c
-  /\ pcM = IF Locked THEN "lock" ELSE "erase"
+  /\ pcM = IF c.mode = "quiet" THEN "tstart"                       \* start() draws nothing
+           ELSE IF Locked THEN "lock" ELSE IF c.mode = "plain" THEN "frame" ELSE "erase"
   /\ mph = "s" /\ bi = 0
-  /\ mframe = IF Locked THEN <<>> ELSE Frame(0, c.start)
+  /\ mframe = IF Locked \/ c.mode = "quiet" THEN <<>> ELSE IF c.mode = "plain" THEN <<" ">> \o c.start ELSE Frame(0, c.start)
   /\ pcS = "new" /\ sframe = <<>> /\ sdead = 0
   /\ message = c.start /\ current = 0 /\ update = c.interval     \* start(): clock = 0
   /\ stop = FALSE /\ lock = "" /\ clock = 0
@@ -66,21 +93,8 @@ InitWith(c) ==
   /\ outcome = ""
   /\ last = Ev("", "new", <<>>)
 
-\* M runs from the end of body item i-1 to its next yield point
-Enter(i) ==
-  /\ bi' = i
-  /\ IF i > Len(cfg.body) THEN                                   \* finish(): _auto_running.set() comes first
-       /\ pcM' = "f_set" /\ UNCHANGED <<message, mframe, mph>>
-     ELSE LET it == cfg.body[i] IN
-       IF it.k = "set" THEN                                      \* set_message: _message = m; _display()
-         /\ message' = it.m /\ mph' = "b"
-         /\ IF Locked THEN pcM' = "lock" /\ UNCHANGED mframe
-            ELSE pcM' = "erase" /\ mframe' = Frame(current, it.m)
-       ELSE IF it.k = "work" THEN pcM' = "work" /\ UNCHANGED <<message, mframe, mph>>
-       ELSE pcM' = "x_lf" /\ UNCHANGED <<message, mframe, mph>>  \* "raise" / "interrupt": except-branch of auto()
-
 MLock == /\ pcM = "lock" /\ lock = ""
-         /\ lock' = "M" /\ mframe' = Frame(current, message) /\ pcM' = "erase"
+         /\ lock' = "M" /\ mframe' = FrameOf(current, message) /\ pcM' = IF Plain THEN "frame" ELSE "erase"
          /\ last' = Ev("M", "acquire", <<>>)
          /\ UNCHANGED <<mph, bi, message, current, stop, term, outcome, pcS>>
 MErase == /\ pcM = "erase"
@@ -88,9 +102,9 @@ MErase == /\ pcM = "erase"
           /\ last' = Ev("M", "write", EraseOps)
           /\ UNCHANGED <<mph, bi, mframe, message, current, stop, lock, outcome, pcS>>
 MFrame == /\ pcM = "frame"
-          /\ term' = ApplyOps(term, FrameOps(mframe))
+          /\ term' = ApplyOps(term, WriteFrame(mframe))
           /\ lock' = IF Locked THEN "" ELSE lock
-          /\ last' = Ev("M", "write", FrameOps(mframe))
+          /\ last' = Ev("M", "write", WriteFrame(mframe))
           /\ UNCHANGED <<current, stop, outcome>>
           /\ CASE mph = "s" -> pcM' = "tstart" /\ UNCHANGED <<mph, bi, mframe, message, pcS>>
                [] mph = "b" -> Enter(bi + 1) /\ UNCHANGED pcS
@@ -120,10 +134,11 @@ MFSet == /\ pcM = "f_set" /\ stop' = TRUE /\ pcM' = "f_join"
          /\ UNCHANGED <<mph, bi, mframe, message, current, lock, term, outcome, pcS>>
 MFJoin == /\ pcM = "f_join" /\ pcS = "done"
           /\ message' = cfg.end /\ current' = 0 /\ mph' = "f"
-          /\ IF Locked THEN pcM' = "lock" /\ UNCHANGED mframe
-             ELSE pcM' = "erase" /\ mframe' = Frame(0, cfg.end)
+          /\ IF Quiet THEN pcM' = "done" /\ outcome' = "normal" /\ UNCHANGED mframe      \* nothing more reaches the stream
+             ELSE /\ pcM' = DisplayPc /\ UNCHANGED outcome
+                  /\ mframe' = IF Locked THEN mframe ELSE FrameOf(0, cfg.end)
           /\ last' = Ev("M", "join", <<>>)
-          /\ UNCHANGED <<bi, stop, lock, term, outcome, pcS>>
+          /\ UNCHANGED <<bi, stop, lock, term, pcS>>
 MFLf == /\ pcM = "f_lf" /\ term' = ApplyOps(term, LFOps)
         /\ pcM' = "done" /\ outcome' = "normal"
         /\ last' = Ev("M", "write", LFOps)
@@ -136,11 +151,12 @@ MStep == /\ (MLock \/ MErase \/ MFrame \/ MThreadStart \/ MWork \/ MXLf \/ MXSet
 SIsSet == /\ pcS = "isset"
           /\ last' = Ev("S", "isset", <<>>)
           /\ IF stop THEN pcS' = "done" /\ UNCHANGED <<sframe, sdead, current, update>>
-             ELSE IF clock < update THEN                          \* advance(): too early, no redraw
+             ELSE IF Plain \/ clock < update THEN                 \* advance(): not decorated / too early: no redraw
                pcS' = "sleep" /\ sdead' = clock + SleepMs /\ UNCHANGED <<sframe, current, update>>
-             ELSE /\ update' = clock + cfg.interval /\ current' = current + 1 /\ UNCHANGED sdead
-                  /\ IF Locked THEN pcS' = "lock" /\ UNCHANGED sframe
-                     ELSE pcS' = "erase" /\ sframe' = Frame(current + 1, message)
+             ELSE /\ update' = clock + cfg.interval /\ current' = current + 1
+                  /\ IF Quiet THEN pcS' = "sleep" /\ sdead' = clock + SleepMs /\ UNCHANGED sframe   \* _display() returns
+                     ELSE IF Locked THEN pcS' = "lock" /\ UNCHANGED <<sframe, sdead>>
+                     ELSE pcS' = "erase" /\ sframe' = Frame(current + 1, message) /\ UNCHANGED sdead
           /\ UNCHANGED <<lock, term>>
 SLock == /\ pcS = "lock" /\ lock = ""
          /\ lock' = "S" /\ sframe' = Frame(current, message) /\ pcS' = "erase"
